@@ -1,6 +1,10 @@
 package jmespath
 
-import "github.com/woodsbury/decimal128"
+import (
+	"encoding/json"
+
+	"github.com/woodsbury/decimal128"
+)
 
 // C13: sort, sort_by, min/max and min_by/max_by order by value, stably.
 
@@ -116,6 +120,7 @@ func H_C13_long() {
 	if vrtChoose("n", 2) == 1 {
 		n = 14
 	}
+	strKeys := vrtChoose("keytype", 2) == 1
 	arr := make([]any, n)
 	keys := make([]int, n)
 	for i := 0; i < n; i++ {
@@ -125,7 +130,11 @@ func H_C13_long() {
 			k = vrtIntRange("k", 0, 1)
 		}
 		keys[i] = k
-		arr[i] = map[string]any{"x": int64(k), "id": int64(i)}
+		if strKeys {
+			arr[i] = map[string]any{"x": string(rune('a' + k)), "id": int64(i)}
+		} else {
+			arr[i] = map[string]any{"x": int64(k), "id": int64(i)}
+		}
 	}
 	got, err := Search("sort_by(@, &x)[*].id", arr)
 	vrtAssert(err == nil, "sort_by")
@@ -146,4 +155,29 @@ func H_C13_long() {
 		}
 		prev = int(id)
 	}
+}
+
+// c13Near: numbers that differ only beyond binary64 precision, or are equal in
+// value but spelled differently.
+var c13Near = []string{"9007199254740993", "9007199254740992", "9007199254740992.0", "0.3000000000000000000001", "0.3", "0.30", "1.00000000000000000002", "1.00000000000000000001", "1", "1e0", "-0.1", "-0.10000000000000000001", "123456789012345678901234567890123", "123456789012345678901234567890124"}
+
+// H_C13_near: ordering functions on near-miss numbers, against the reference
+// (the engine hands concrete decimals to the real decimal128 library).
+func H_C13_near() {
+	n := 2 + vrtChoose("n", 2)
+	arr := make([]any, n)
+	for i := range arr {
+		arr[i] = json.Number(c13Near[vrtChoose("v", len(c13Near))])
+	}
+	objs := make([]any, n)
+	for i := range arr {
+		objs[i] = map[string]any{"x": arr[i], "id": int64(i)}
+	}
+	exprs := []string{"sort(@)", "max(@)", "min(@)", "@[0] < @[1]", "@[0] == @[1]", "@[0] <= @[1]"}
+	for _, e := range exprs {
+		diffSearch(e, arr, false)
+	}
+	diffSearch("sort_by(@, &x)[*].id", objs, false)
+	diffSearch("max_by(@, &x).x", objs, false)
+	diffSearch("min_by(@, &x).x", objs, false)
 }
